@@ -758,6 +758,7 @@ func (p *Parser) checkStrictEmptySemicolon() error {
 // advance moves to the next token
 func (p *Parser) advance() {
 	p.currentPos++
+	verifOnAdvance(p)
 	if p.currentPos < len(p.tokens) {
 		p.currentToken = p.tokens[p.currentPos]
 	}
